@@ -423,6 +423,27 @@ func (g *Gen) boxTerm(t types.Type, ifaceSort string, v Term, w *World) Term {
 		g.sortDecl = append(g.sortDecl, fmt.Sprintf("(declare-fun %s (%s) %s)", fn, xs, ifaceSort))
 		g.sortDecl = append(g.sortDecl, fmt.Sprintf("(assert (forall ((x %s)) (! (= (%s (%s x)) %d) :pattern ((%s x)))))", xs, dyn, fn, w.typeTag(t), fn))
 	}
+	// dynamic dispatch of Name() on a boxed ecosystem value: the interface method applied to the box is the concrete method
+	// (Go semantics; the VERS evaluator and the CLI select behaviour by this name)
+	if ifaceSort == "I_univers_Ecosystem" && w != nil {
+		if pt, ok := t.(*types.Pointer); ok {
+			if nt, ok := pt.Elem().(*types.Named); ok && nt.Obj().Name() == "Ecosystem" && nt.Obj().Pkg() != nil {
+				short := nt.Obj().Pkg().Name()
+				key := "dispatch_Name_" + short
+				if cf := w.funcs[short+".(*Ecosystem).Name"]; cf != nil && w.contractOf(cf) != nil && !g.funSeen[key] {
+					g.funSeen[key] = true
+					m := "M_" + sanitize(ifaceSort) + "_Name"
+					if !g.funSeen[m] {
+						g.funSeen[m] = true
+						g.declare(fmt.Sprintf("(declare-fun %s (%s) Str)", m, ifaceSort))
+						g.ifaceAxioms(m, "Name", 0, []string{ifaceSort}, "Str")
+					}
+					app := g.useCallee(cf, []Term{"x"})[0]
+					g.declare(fmt.Sprintf("(assert (forall ((x %s)) (! (= (%s (%s x)) %s) :pattern ((%s x)))))", xs, m, fn, app, fn))
+				}
+			}
+		}
+	}
 	return "(" + fn + " " + v + ")"
 }
 
